@@ -160,6 +160,17 @@ example : ∀ o ∈ [Opt.indent [0x20], Opt.bools (flagBit 19 ||| 1#64), Opt.str
 
 example : TagFree (newCoder true [.indent [0x20], .bools (flagBit 19 ||| 1#64)]) := by decide
 
+-- `scoped_call_restores`: one call option suffices; `scoped_getOption_intact`: every public setter is a `PublicKey`
+example : callOpts false [Opt.bools (flagBit 19 ||| 1#64)] ≠ [] := by decide
+example : PublicKey (.flag (flagBit 18)) ∧ PublicKey .indent ∧ PublicKey .marshalers := ⟨by show (flagBit 18).getLsbD 3 = false; decide, trivial, trivial⟩
+
+/-- MarshalEncode with Deterministic(true) as call option on a coder that has Deterministic(false): inside the call the
+flag reads true, afterwards the coder has its own value again -/
+example :
+    let s := newCoder true [.bools (flagBit 19)]
+    (enterMarshal [.bools (flagBit 19 ||| 1#64)] s).getOption (.flag (flagBit 19)) = (.bool true, true) ∧
+    (exec false (.call true [.bools (flagBit 19 ||| 1#64)] false (.fail true)) s) = (s, .err true) := by decide
+
 /-- a `,string` member whose value fails inside user code, in a call without options: the coder ends as it began -/
 example : (exec false (.call true [] false (.seq (.clear .tags) (members true [(true, [], .user (.fail true))]))) {}).1 = {} := by
   decide
